@@ -1472,11 +1472,18 @@ func genReplay(r *rand.Rand) desc {
 		}
 		return mode()
 	}
+	var arrival func(k string, l int) op
 	cerr := func() bool {
 		if failing {
 			return r.Intn(3) != 0
 		}
 		return r.Intn(6) == 0
+	}
+	arrival = func(k string, l int) op {
+		o := op{K: k, A: addr(), L: l, E: cerr()}
+		o.M = tmode()
+		o.T = tflag
+		return o
 	}
 	if class >= 4 {
 		d.Ops = append(d.Ops, op{K: "servestart"})
@@ -1490,14 +1497,14 @@ func genReplay(r *rand.Rand) desc {
 		case x < 40:
 			switch {
 			case class < 4:
-				d.Ops = append(d.Ops, op{K: "serveconn", A: addr(), E: cerr(), M: tmode(), T: tflag})
+				d.Ops = append(d.Ops, arrival("serveconn", 0))
 			case class < 8:
-				d.Ops = append(d.Ops, op{K: "accept", A: addr(), L: r.Intn(3), E: cerr(), M: tmode(), T: tflag})
+				d.Ops = append(d.Ops, arrival("accept", r.Intn(3)))
 			default:
 				if r.Intn(2) == 0 {
-					d.Ops = append(d.Ops, op{K: "serveconn", A: addr(), E: cerr(), M: tmode(), T: tflag})
+					d.Ops = append(d.Ops, arrival("serveconn", 0))
 				} else {
-					d.Ops = append(d.Ops, op{K: "accept", A: addr(), L: r.Intn(3), E: cerr(), M: tmode(), T: tflag})
+					d.Ops = append(d.Ops, arrival("accept", r.Intn(3)))
 				}
 			}
 		case x < 58:
